@@ -1019,7 +1019,7 @@ func (r *Run) rangeInstr(fr *Frame, in *ssa.Range) {
 		for i := range order {
 			order[i] = i
 		}
-		if n >= 2 {
+		if n >= 2 && !r.mapOrderOff {
 			switch r.eng.cfg.MapOrder {
 			case "all":
 				if n <= 3 {
